@@ -313,6 +313,9 @@ pub fn judge(job: &Job, spec: &SpecRun, obs: &Obs) -> Verdict {
                 Verdict::Inconclusive("watchdog fired".into())
             }
         }
+        End::ExitCode(c) if *c == crate::alloc::EXIT_BAD_LAYOUT => {
+            return Verdict::Violated(format!("allocator contract broken during {}: {}", job.cfg.describe(), crate::alloc::bad_layout_text()))
+        }
         End::ExitCode(c) => return Verdict::Violated(format!("child exited with status {c} during {}", job.cfg.describe())),
         End::NotRun => return Verdict::Inconclusive("not run".into()),
     }
